@@ -498,6 +498,11 @@ func TestC14(t *testing.T) {
 		if len(ev.harnessErrors) > 0 {
 			return
 		}
+		// every run also sees sets around 2^16 members (one per shard), whatever the random sizes were
+		{
+			n := []int{65535, 65536, 65537, 70001}[shard%4]
+			kC14.One(ev, c14Case{D: gcsData{Key: HexBytes(bytes.Repeat([]byte{byte(shard + 1)}, 16)), P: uint8(19 + shard%4), M: 784931, N: n, Seed: uint32(seedEnv)}})
+		}
 		kC14.Run(t, ev, perShard(pick(1200, 40000)))
 		kC14Block.Run(t, ev, perShard(pick(1500, 500000)))
 		kC14Chain.Run(t, ev, perShard(pick(1500, 500000)))
